@@ -208,8 +208,9 @@ def parse(out, results):
         mt = re.search(r"Verification Time: ([0-9.]+)s", text)
         if mt:
             r.time_s = float(mt.group(1))
-        for fm in re.finditer(r"Failed Checks: (.*?)\n\s*File: \"(.*?)\", line (\d+), in (\S+)", text):
-            r.failed_checks.append((fm.group(1).strip(), "%s:%s in %s" % (fm.group(2), fm.group(3), fm.group(4))))
+        # a description may span several lines (function-contract clauses are printed as written)
+        for fm in re.finditer(r"Failed Checks: (.*?)\n\s*File: \"(.*?)\", line (\d+), in (\S+)", text, re.S):
+            r.failed_checks.append((re.sub(r"\s+", " ", fm.group(1)).strip(), "%s:%s in %s" % (fm.group(2), fm.group(3), fm.group(4))))
         if "VERIFICATION:- SUCCESSFUL" in text:
             r.status = "ok"
         elif "VERIFICATION:- FAILED" in text:
@@ -227,6 +228,9 @@ def parse(out, results):
                 else:
                     r.status = "failed"
                     r.failed_checks = real or r.failed_checks
+                    if not r.failed_checks:
+                        # never lose a failure because its description could not be parsed
+                        r.failed_checks = [("check failed (description not parsed)", "harness %s" % r.h.name)]
         elif "timed out" in text.lower():
             r.status, r.reason = "undecided", "harness timeout"
     return results
